@@ -96,7 +96,10 @@ type interpreter struct {
 	symFuncs           map[string]bool        // functions that computed a symbolic value
 	curFrame           *frame
 	curInstr           ssa.Instruction
-	mapOrders          bool // draw map iteration orders from symbolic permutations
+	mapOrders          int // 0 canonical order; 1 one symbolic direction (forward/reverse) per activation; 2 a symbolic permutation per range
+	orderSeq           int
+	orderDecided       bool
+	orderRev           bool
 	symKeySeq          int
 	permSeq            int
 	hooks              map[string]value // per-path harness state (vh)
